@@ -774,23 +774,24 @@ theorem spec_setPhase (w : World) (s : Nat) (p : Ph) (hsc : Scoped w) (hs : s < 
 
 theorem writes_unlink (w : World) (s : Nat) : Writes w (w.unlink s) none' (· = s) := by
   simp only [World.unlink]
-  exact (copyImol_spec _ _).writes.of_none.seq ((writes_newTc _ _).of_none.seq
-    ((writes_setStr _ s _).mono (fun x _ h => h.elim) (fun i _ h => by intros; exact h)))
+  exact (copyImol_spec _ _).writes.of_none.seq ((writes_newTc _ _).of_none.seq ((writes_newCf _ _).of_none.seq
+    ((writes_setStr _ s _).mono (fun x _ h => h.elim) (fun i _ h => by intros; exact h))))
 
-/-- after `unlink` every flow / phase / thermal object of the stream is new -/
+/-- after `unlink` every object of the stream (flows, phase, thermal condition, characterization-factor
+dict) is new -/
 theorem unlink_fresh (w : World) (s : Nat) :
-    ∀ x ∈ (w.unlink s).fp s, x = (w.strs s).cf ∨ (w.next ≤ x ∧ x < (w.unlink s).next) := by
+    ∀ x ∈ (w.unlink s).fp s, w.next ≤ x ∧ x < (w.unlink s).next := by
   intro x hx
   have h := copyImol_spec w (w.strs s).imol
   have hn := h.writes.next
   simp only [World.unlink, World.fp] at hx ⊢
   simp at hx ⊢
   rcases hx with rfl | rfl | hx
-  · right; omega
-  · left; rfl
+  · omega
+  · omega
   · rw [fpImol_of_agree (w := (w.copyImol (w.strs s).imol).1) (by simp) (by simp)] at hx
     have := h.fresh x hx
-    right; omega
+    omega
 
 theorem spec_unlink (w : World) (s : Nat) (hsc : Scoped w) (hs : s < w.nS) : OpSpec w [s] (w.unlink s) := by
   refine ⟨(writes_unlink w s).mono (fun _ _ h => h.elim) (fun i _ h => by simp [h]), ?_⟩
@@ -803,10 +804,8 @@ theorem spec_unlink (w : World) (s : Nat) (hsc : Scoped w) (hs : s < w.nS) : OpS
     exact ⟨Or.inl ⟨hlt', hx⟩, Nat.lt_of_lt_of_le (hsc j hlt' x hx) (writes_unlink w s).next⟩
   have hj' : j = s := Decidable.not_not.mp hj''
   subst hj'
-  rcases unlink_fresh w j x hx with rfl | h
-  · exact ⟨Or.inr (Or.inl (M_single (mem_fp_cf w j))),
-      Nat.lt_of_lt_of_le (hsc j hs _ (mem_fp_cf w j)) (writes_unlink w j).next⟩
-  · exact ⟨Or.inr (Or.inr h.1), h.2⟩
+  have h := unlink_fresh w j x hx
+  exact ⟨Or.inr (Or.inr h.1), h.2⟩
 
 
 theorem M_pair_left {w : World} {t s x : Nat} (h : x ∈ w.fp t) : w.M [t, s] x := ⟨t, by simp, h⟩
@@ -935,9 +934,13 @@ theorem writes_ctor (w : World) (a : Args) (w' : World) (i : Nat) (h : w.ctor a 
     cases hf : a.flowsOk with
     | true => rfl
     | false => simp [World.ctor, hf] at h
+  have hz : (a.rescales && a.given == 0) = false := by
+    cases hz : (a.rescales && a.given == 0) with
+    | false => rfl
+    | true => simp [World.ctor, hf, hz] at h
   cases hm : a.multi with
   | true =>
-    simp only [World.ctor, hf, hm, Bool.not_true, Bool.false_eq_true, if_false, if_true, Except.ok.injEq,
+    simp only [World.ctor, hf, hz, hm, Bool.not_true, Bool.false_eq_true, if_false, if_true, Except.ok.injEq,
       Prod.mk.injEq] at h
     obtain ⟨rfl, rfl⟩ := h
     refine ⟨(writes_newCf w _).of_none.seq ((writes_newTc _ _).of_none.seq ((writes_newRows _ _).of_none.seq
@@ -947,7 +950,7 @@ theorem writes_ctor (w : World) (a : Args) (w' : World) (i : Nat) (h : w.ctor a 
     simp [World.fp, World.fpImol, newRows_ids] at hx ⊢
     omega
   | false =>
-    simp only [World.ctor, hf, hm, Bool.not_true, Bool.false_eq_true, if_false, Except.ok.injEq,
+    simp only [World.ctor, hf, hz, hm, Bool.not_true, Bool.false_eq_true, if_false, Except.ok.injEq,
       Prod.mk.injEq] at h
     obtain ⟨rfl, rfl⟩ := h
     refine ⟨(writes_newCf w _).of_none.seq ((writes_newTc _ _).of_none.seq ((writes_newPh _ _).of_none.seq
@@ -3344,14 +3347,18 @@ theorem wfAll_step (w : World) (op : Op) (w' : World) (hsc : Scoped w) (hwf : WF
         cases hf : a.flowsOk with
         | true => rfl
         | false => simp [World.ctor, hf] at hc
+      have hz : (a.rescales && a.given == 0) = false := by
+        cases hz : (a.rescales && a.given == 0) with
+        | false => rfl
+        | true => simp [World.ctor, hf, hz] at hc
       cases hm : a.multi with
       | true =>
-        simp only [World.ctor, hf, hm, Bool.not_true, Bool.false_eq_true, if_false, if_true, Except.ok.injEq] at hc
+        simp only [World.ctor, hf, hz, hm, Bool.not_true, Bool.false_eq_true, if_false, if_true, Except.ok.injEq] at hc
         rw [← hc]
         simp [WFImol, newRows_ids]
         exact ⟨normPh_congr _ _ (mem_normPh _), List.nodup_range'⟩
       | false =>
-        simp only [World.ctor, hf, hm, Bool.not_true, Bool.false_eq_true, if_false, Except.ok.injEq] at hc
+        simp only [World.ctor, hf, hz, hm, Bool.not_true, Bool.false_eq_true, if_false, Except.ok.injEq] at hc
         rw [← hc]
         simp [WFImol]
   | setFlow s p c v =>
